@@ -115,7 +115,7 @@ def build_driver():
     if rc != 0:
         raise Broken("extraction failed", out[-3000:])
     shutil.copy(os.path.join(VERIF, "driver", "main.ml"), os.path.join(EXTRACT_DIR, "main.ml"))
-    rc, out = run(["ocamlfind", "ocamlopt", "-package", "coq-core.kernel", "-linkpkg", "-O3", "-w", "-a",
+    rc, out = run(["ocamlfind", "ocamlopt", "-rectypes", "-thread", "-package", "coq-core.kernel", "-linkpkg", "-O3", "-w", "-a",
                    "uf_model.mli", "uf_model.ml", "main.ml", "-o", "model_run"], cwd=EXTRACT_DIR, timeout=900)
     if rc != 0:
         raise Broken("driver compilation failed", out[-3000:])
@@ -290,11 +290,19 @@ def split_cases(text):
     return order, cases
 
 
+def _unlimit_stack():
+    import resource
+    try:
+        resource.setrlimit(resource.RLIMIT_STACK, (resource.RLIM_INFINITY, resource.RLIM_INFINITY))
+    except (ValueError, OSError):
+        pass
+
+
 def run_side(exe, mode, script_path, timeout=600, extra_args=()):
     t0 = time.time()
     try:
         p = subprocess.run([exe, mode, script_path] + list(extra_args), stdout=subprocess.PIPE,
-                           stderr=subprocess.PIPE, timeout=timeout, env=ENV)
+                           stderr=subprocess.PIPE, timeout=timeout, env=ENV, preexec_fn=_unlimit_stack)
         return p.returncode, p.stdout.decode("utf-8", "replace"), p.stderr.decode("utf-8", "replace"), time.time() - t0
     except subprocess.TimeoutExpired as e:
         out = (e.stdout or b"").decode("utf-8", "replace")
